@@ -5,6 +5,7 @@ import (
 	"errors"
 	"fmt"
 	"math/rand"
+	"strings"
 
 	"github.com/cloudwego/gopkg/bufiox"
 
@@ -41,7 +42,7 @@ var wSizes = []int{0, 1, 3, 4095, 4096, 4097, 8193, 20000}
 
 type writerOpts struct {
 	bytesWriter bool
-	initClass   int // bytes writer: 0 nil, 1 empty with cap, 2 partial, 3 full
+	initClass   int // bytes writer: 0 nil, 1 empty with cap, 2 partial, 3 full, 4 empty without capacity (non-nil)
 	initLen     int
 	failAt      int  // sink fails at this Write call (1-based), 0 never
 	failMode    int  // what the failing Write reports (see doubles.Sink.FailMode)
@@ -62,14 +63,23 @@ type region struct {
 func regionByte(tag, i int) byte { return byte(tag*37 + i*11 + (i >> 8) + 1) }
 
 func wOpsString(ops []wOp) string {
-	s := ""
+	var b strings.Builder
 	for i, o := range ops {
 		if i > 0 {
-			s += " "
+			b.WriteByte(' ')
 		}
-		s += o.String()
+		if i == 400 && len(ops) > 800 {
+			// very long histories are built by a rule their stage states; the replay re-generates them
+			fmt.Fprintf(&b, "... (%d operations in all) ...", len(ops))
+			for _, o := range ops[len(ops)-20:] {
+				b.WriteByte(' ')
+				b.WriteString(o.String())
+			}
+			break
+		}
+		b.WriteString(o.String())
 	}
-	return s
+	return b.String()
 }
 
 // runWriterHistory executes ops against a real bufiox writer and checks everything against
@@ -105,6 +115,8 @@ func runWriterHistoryInner(cs *drv.Case, ops []wOp, o writerOpts) bool {
 		switch o.initClass {
 		case 0:
 			target = nil
+		case 4:
+			target = []byte{} // not nil, no capacity
 		case 1:
 			init = san.NewCanary(0, 64+o.initLen, func(i int) byte { return 0x77 })
 			target = init.Buf()
